@@ -60,6 +60,14 @@
 //	D14 after a PAUSE answered 2xx the model is in Ready (§10.6), the stream
 //	   attachment may be kept (PAUSE keeps resources), and a SETUP may still be
 //	   answered 455 by a server that treats the paused session as playing.
+//	D15 a transport whose client_port is above 65535 may be accepted or refused.
+//	D16 ipchub keeps one transport kind per session (the last accepted SETUP's); a
+//	   track accepted over tcp, then accepted over udp, in a session whose last
+//	   SETUP is tcp again is played on the channel of its EARLIER accepted tcp
+//	   SETUP (and the mirror image for client ports). Every request of such a
+//	   history was accepted, and the statement does not say which of a track's
+//	   accepted transports wins: tolerated and counted as a class. Channels /
+//	   ports that only a refused SETUP carried stay forbidden.
 package c12
 
 import "fmt"
@@ -117,10 +125,20 @@ type model struct {
 	Paused    bool              // a PAUSE was answered 2xx and no PLAY since (D14)
 	Announced string            // path of the last successful ANNOUNCE on this connection
 	Unusable  bool              // an accepted SETUP carried a client_port above 65535 (D15)
+	// D16: every interleaved channel / client port an ACCEPTED SETUP of a track has negotiated in
+	// this session. ipchub keeps ONE transport kind per session (that of the last accepted
+	// SETUP); after a track was accepted over tcp, accepted again over udp, and the session's
+	// last SETUP is tcp once more, the track is played on the channel of its earlier accepted
+	// tcp SETUP. Nothing was refused in such a history and the statement does not say which of a
+	// track's accepted transports wins, so these are tolerated; a channel / port that only a
+	// REFUSED SETUP carried is never in here.
+	WasChan map[string]map[int]bool
+	WasPort map[string]map[int]bool
 }
 
 func newModel(wsPath string) *model {
-	return &model{Tracks: map[string]bool{}, Setup: map[string]string{}, Chan: map[string]int{}, Port: map[string]int{}, WSPath: wsPath}
+	return &model{Tracks: map[string]bool{}, Setup: map[string]string{}, Chan: map[string]int{}, Port: map[string]int{}, WSPath: wsPath,
+		WasChan: map[string]map[int]bool{}, WasPort: map[string]map[int]bool{}}
 }
 
 func (m *model) String() string {
@@ -194,8 +212,16 @@ func (m *model) setup(e *env, s *step) expectation {
 		switch s.Trans {
 		case "tcp":
 			m.Chan[s.Track] = s.chanBase
+			if m.WasChan[s.Track] == nil {
+				m.WasChan[s.Track] = map[int]bool{}
+			}
+			m.WasChan[s.Track][s.chanBase] = true
 		case "udp":
 			m.Port[s.Track] = s.udpPort
+			if m.WasPort[s.Track] == nil {
+				m.WasPort[s.Track] = map[int]bool{}
+			}
+			m.WasPort[s.Track][s.udpPort] = true
 		}
 		if m.St == stInit {
 			m.St = stReady
